@@ -1,8 +1,8 @@
 SPECIFICATION Spec
 CONSTANTS
   MaxArgLen = 3
-  MaxArgs = 2
+  MaxArgs = 13
   Emit = TRUE
-  Mode = "full"
+  Mode = "long"
 INVARIANT Inv
 CHECK_DEADLOCK FALSE
